@@ -1576,19 +1576,28 @@ class Session:
 
     # ---- comparison --------------------------------------------------------------------------------
     def compare(self, do_write=True):
-        """-> None or a difference"""
+        """-> None or a difference.
+
+        The write comes first, on both problems: formatting refreshes syntax-tree internals that public attributes
+        show (old_*number, raw node texts: `_update_values`), and a rejected call may have formatted one of its
+        arguments for its error message (`f"... {value} given"` calls `__str__`, which formats) — an observation that
+        the control has not made yet.  After the write both problems have been observed alike; what a rejected call
+        really changed is still different afterwards (values, membership, look-ups, links)."""
         beforeA = self.snapA
-        self.snapA, self.snapB = Snap(self.A, probes=self.probes), Snap(self.B, probes=self.probes)
-        d = self.snapA.diff(self.snapB)
-        if d:
-            return {"kind": "attribute-reads", "diff": [list(x) for x in d]}
+        wd = None
         if do_write:
             wa, wb = written(self.A, "c14a.o"), written(self.B, "c14b.o")
             if wa != wb:
                 import difflib
                 dl = [l for l in difflib.unified_diff(wb.splitlines(), wa.splitlines(), "without the rejected call",
                                                       "with the rejected call", lineterm="", n=0)][:12]
-                return {"kind": "written-bytes", "diff": dl}
+                wd = {"kind": "written-bytes", "diff": dl}
+        self.snapA, self.snapB = Snap(self.A, probes=self.probes), Snap(self.B, probes=self.probes)
+        d = self.snapA.diff(self.snapB)
+        if d:
+            return {"kind": "attribute-reads", "diff": [list(x) for x in d] + ([["<written file>", "diff", wd["diff"], ""]] if wd else [])}
+        if wd:
+            return wd
         self.direct_equal = beforeA.data == self.snapA.data
         return None
 
